@@ -14,7 +14,7 @@ RULE = (
 )
 ASSUMPTIONS = ["fault-free network", "inputs dominate; the simulator supplies the deterministic two-party execution"]
 
-OPS = ["echo", "store", "find", "get", "move", "n_get", "n_set", "n_action", "n_create", "n_delete", "n_event_report"]
+OPS = ["echo", "store", "store_file", "find", "get", "move", "n_get", "n_set", "n_action", "n_create", "n_delete", "n_event_report"]
 DS_KINDS = ["nonempty", "empty", "none"]
 
 
@@ -40,6 +40,9 @@ def _valid(op, rq, rs):
         return rq == "none" and rs == "none"
     if op == "store":
         return rq == "nonempty" and rs == "none"
+    if op == "store_file":
+        # chunked send straight from a DICOM file; "empty" = a file that holds only the preamble and File Meta
+        return rq in ("nonempty", "empty") and rs == "none"
     if op in ("find", "get", "move"):
         return rq in ("nonempty", "empty")
     if op == "n_get":
@@ -173,7 +176,7 @@ def execute(sc, ctx):
     scu = ctx.make_ae("SCU", acse=1.0, dimse=0.6, network=2.0, max_pdu=sc["max_pdu"])
     for u in (C.VERIFICATION, C.PR_FIND, C.PR_GET, C.PR_MOVE, C.PRINTER, C.BASIC_FILM_SESSION, C.CT):
         scu.add_requested_context(u)
-    assoc = ctx.associate(scu, handlers=[(evt.EVT_C_STORE, on_store)], ext_neg=[build_role(C.CT, scp_role=True)])
+    assoc = ctx.associate(scu, handlers=[(evt.EVT_C_STORE, on_store)], ext_neg=[build_role(C.CT, scu_role=True, scp_role=True)])
     ctx.obs["established"] = assoc.is_established
     res = ctx.obs["results"] = []
     inst = "1.2.840.10008.5.1.1.17"
@@ -191,6 +194,30 @@ def execute(sc, ctx):
                 out = _st(st)
             elif o == "store":
                 out = _st(assoc.send_c_store(C.store_ds(i), msg_id=mid))
+            elif o == "store_file":
+                import os
+                import tempfile
+                from pydicom.dataset import Dataset, FileMetaDataset
+                from pynetdicom import _config
+
+                fds = C.store_ds(i) if op["rq"] == "nonempty" else Dataset()
+                meta = FileMetaDataset()
+                meta.MediaStorageSOPClassUID = C.CT
+                meta.MediaStorageSOPInstanceUID = "1.2.3.4.%d" % (i + 1)
+                meta.TransferSyntaxUID = C.IVLE
+                fds.file_meta = meta
+                tmp = tempfile.mkdtemp(prefix="dsim-c16-")
+                path = os.path.join(tmp, "in.dcm")
+                fds.save_as(path, write_like_original=False)
+                old_cfg = _config.STORE_SEND_CHUNKED_DATASET
+                _config.STORE_SEND_CHUNKED_DATASET = True
+                try:
+                    out = _st(assoc.send_c_store(path, msg_id=mid))
+                finally:
+                    _config.STORE_SEND_CHUNKED_DATASET = old_cfg
+                    import shutil
+
+                    shutil.rmtree(tmp, ignore_errors=True)
             elif o == "find":
                 out = [_st(s) for s, _ in assoc.send_c_find(ds, C.PR_FIND, msg_id=mid)]
             elif o == "get":
@@ -210,7 +237,7 @@ def execute(sc, ctx):
             elif o == "n_event_report":
                 out = _st(assoc.send_n_event_report(ds, 1, C.PRINTER, inst, msg_id=mid)[0])
         except Exception as e:  # noqa: BLE001 - the API refusing an input is not this property's business
-            out = "raised:%s:%s" % (type(e).__name__, str(e)[:80])
+            out = "raised:%s:%s" % (type(e).__name__, str(e)[:240])
         sim.record("user_op", op=o, phase="return", msg_id=mid, res=repr(out))
         res.append(out)
     if assoc.is_established:
@@ -264,11 +291,14 @@ def check(sc, r):
             break
         o = res[i]
         if isinstance(o, str) and o.startswith("raised:"):
+            if op["op"] in ("store", "store_file"):
+                out.append(C.v("receivable", "C16/send-refused/%s" % op["op"], "op %d %s was refused by the API: %s" % (i, op, o)))
             continue
         if o == "not-established":
             out.append(C.v("receivable", "C16/association-lost-before/%s" % op["op"], "association no longer established before op %d (%s)" % (i, op)))
             break
-        hs = [h for h in r.hist if h["kind"] == "handler" and h["op"] == op["op"] and h.get("msg_id") == i + 1]
+        hop = "store" if op["op"] == "store_file" else op["op"]
+        hs = [h for h in r.hist if h["kind"] == "handler" and h["op"] == hop and h.get("msg_id") == i + 1]
         if not hs:
             out.append(C.v("receivable", "C16/request-not-delivered/%s/%s" % (op["op"], op["rq"]), "op %d %s: the peer's %s handler was never invoked (result %r)" % (i, op, op["op"], o)))
         empty = o == "empty" or (isinstance(o, list) and (not o or o[-1] == "empty"))
